@@ -26,7 +26,7 @@ CHECKS = {
         note="Assumes Python's try/except semantics and that all emitters "
              "paste into one render function namespace; does not evaluate the "
              "fallback expression or the rendered text. "
-             "Known findings: tal:on-error on a metal:fill-slot / metal:define-macro element is not part of the node registered as filler / macro."),
+             "Also decided: the node registered as slot filler / in the macro table carries the element's on-error wrapper (repaired in 517fc4a)."),
     "C05": dict(
         technique="abstract interpretation of the scope-binding emitters "
                   "(pairing of save/restore fragments, liveness of backup "
@@ -48,7 +48,8 @@ CHECKS = {
              "variables from a per-node snapshot (the straight-line restore "
              "code is skipped by the failure); scopes opened for lambda / "
              "comprehension variables are copies closed on every exit. "
-             "Known findings: a global defined inside an element that binds the same name locally is erased at that element's end; the helper locals translate / decode / on_error_handler shadow template variables of those names."),
+             "Also decided: after a macro or filler call only globals that are new or re-assigned since a per-node snapshot are merged into the caller's scope; prefixes of generated identifiers are identifier-safe. "
+             "Known findings: a global defined inside an element that binds the same name locally is erased at that element's end; the helper locals translate / decode / on_error_handler shadow template variables of those names; a template variable named 'repeat' replaces the repeat dictionary that tal:repeat fetches by that name."),
     "C02": dict(
         technique="taint analysis over all syntactic paths of the embedded "
                   "escape routine; sink table by abstract interpretation of "
@@ -110,9 +111,9 @@ CHECKS = {
              "the only source rewrite is CR/CRLF->LF outside XML mode.",
         note="Trusted: sre finditer semantics.  Not decided: that the tag "
              "sub-regexes dissect every tag the way a reader expects "
-             "(value-level); '<!--?' stripping.  Known findings: text "
-             "between attributes that the attribute regex skips, and "
-             "attributes inside an end tag, are not reproduced."),
+             "(value-level) beyond the grammar agreement for unquoted "
+             "attribute values and end tags (every character the tokenizer "
+             "admits there is consumed by the parser's pattern)."),
     "C04": dict(
         technique="constant-table comparison; abstract interpretation of the "
                   "pipe emitter (try/except nesting); path enumeration of "
@@ -176,8 +177,10 @@ CHECKS = {
              "value-level and not decided.  Also decided: a filler writes to "
              "the stream it is called with; the merge of globals after a "
              "macro call is unconditional; render() does not seed the scope "
-             "with a builtin symbol's name.  Known finding: fillers stored "
-             "in the caller's scope are not removed after the call."),
+             "with a builtin symbol's name; slot fillers are handed over in "
+             "the per-node copy of the scope the macro runs on (nothing "
+             "stays in the caller's scope); a filler's globals reach the "
+             "macro body."),
     "C10": dict(
         technique="emission-tree rules for the i18n emitters; package-wide "
                   "census of translate(...) call fragments (sibling "
@@ -255,16 +258,22 @@ CHECKS = {
              "converting SyntaxError).  Chains are followed inside one "
              "function (parameters are assumed to be faithful tokens).   "
              "Known findings: KeyError / LookupError for undeclared prefixes "
-             "/ unknown expression types."),
+             "/ unknown expression types; expression-error tokens are "
+             "entity-decoded / un-escaped (';;', '\\|') copies of the source "
+             "text; entity decoding before the clause split rejects "
+             "tal:define=\"x a&amp;b; y 2\"."),
     "C18": dict(
-        technique="alignment analysis of positionally paired collections "
-                  "(parameter effects of every callee between origin and "
-                  "zip); guarded-lookup rule; pop/discard balance over all "
-                  "paths of the end-tag handler; constant tables",
-        text="Decides that the static attribute list and the namespaced "
-             "mapping, which are paired by position to compute the "
-             "attributes to drop, stay aligned from their common origin to "
-             "the zip (every callee removes from both or from neither); that "
+        technique="who-writes / every-path analysis of the namespace each "
+                  "attribute records for itself (or, where a positional "
+                  "pairing is used, alignment analysis of the paired "
+                  "collections); guarded-lookup rule; pop/discard balance "
+                  "over all paths of the end-tag handler; constant tables",
+        text="Decides that the attributes to drop are computed from the "
+             "namespace every static attribute records when its prefix is "
+             "resolved (written for every attribute, on every path, by that "
+             "function only, with the value the namespaced mapping is keyed "
+             "by), and that a converted data-* attribute leaves the list and "
+             "its stale mapping entry is removed by the attribute's own key; that "
              "prefix lookups keyed by template text are guarded and only the "
              "four language namespaces are converted from data-* attributes, "
              "under the option; that an end tag removes exactly one "
@@ -272,9 +281,8 @@ CHECKS = {
              "that the drop set, the element-omission tests, the whitelist "
              "validation and the xmlns-declaration drop agree with the four "
              "language namespaces.",
-        note="Equality of outputs across prefix spellings is not computed; "
-             "duplicate attribute names in one tag are assumed absent. "
-             "Known finding: attributes with equal expanded names (two prefixes, one URI) collapse in ns_attrs and misalign the drop set."),
+        note="Equality of outputs across prefix spellings is not computed. "
+             "The positional pairing of earlier versions (misaligned by lang + xml:lang) was repaired in 9bcd753."),
     "C17": dict(
         technique="constant folding of the BOM table (row order, prefix "
                   "shadowing, BOM consumption per codec); structural decision "
